@@ -443,6 +443,9 @@ NUMBER_PROBES = {
     "scalar_to_value": _probe("std.parseYaml('1e999')") + _probe("std.parseYaml('.inf')") + _probe("std.parseYaml('.nan')"),
     "run": _probe("-(1e308) - 1e308"),
     "do_expr": _probe("1e999"),
+    # added AFTER seeded change C06-literal-guard was run (its first run had no probe and ended in
+    # no-failing-input-found): constant-folded literals that become already-evaluated thunks
+    "try_value_from_expr": _probe("[1e400]") + _probe("local x = 1e400; x") + _probe("{ a: 1e400 }") + _probe("std.toString(1e400)"),
 }
 
 
